@@ -89,6 +89,7 @@ MSG_PATTERNS = [
     (re.compile(r"^(\d+) step\(s\) failed\.$"), "failed"),
     (re.compile(r"^Scheduler is draining"), "draining"),
     (re.compile(r"^(\d+) step\(s\) remained pending\.$"), "pending"),
+    (re.compile(r"^Invalid build target: A build target cannot be a static file or a volatile output: (.*)$"), "invalid"),
     (re.compile(r"^(\d+) target\(s\) are not produced"), "targets"),
     (re.compile(r"^(\d+) directory target\(s\) matched no"), "dirs"),
     (re.compile(r"^(\d+) glob match\(es\) are not declared static"), "globwarn"),
@@ -104,7 +105,10 @@ def report_messages(events) -> list[str]:
         for rx, name in MSG_PATTERNS:
             m = rx.match(text)
             if m:
-                out.append(name if name == "draining" else f"{name}:{m.group(1)}")
+                if name == "invalid":
+                    out.append(f"invalid:{len(m.group(1).split(', '))}")
+                else:
+                    out.append(name if name == "draining" else f"{name}:{m.group(1)}")
                 break
     return out
 
@@ -165,11 +169,12 @@ def missing_targets(sn, targets, target_dirs) -> tuple[int, int]:
     out_states = {s.value for s, r in FILE_ROLE_BY_STATE.items() if r == FileRole.OUTPUT}
     file_by_label = {n[1]: i for i, n in sn.nodes.items() if n[0] == "file" and not n[3] and i in sn.files}
     mt = 0
+    invalid = set(invalid_targets_at_end(sn, targets))
     for t in targets:
         i = file_by_label.get(str(t))
         ok = (i is not None and sn.nodes[i][2] is not None and sn.nodes[sn.nodes[i][2]][0] == "step"
               and sn.files[i][0] in out_states)
-        mt += 0 if ok else 1
+        mt += 0 if ok or str(t) in invalid else 1
     md = 0
     for d in target_dirs:
         d = str(d)
@@ -192,14 +197,14 @@ def invalid_targets_at_end(sn, targets) -> list[str]:
                   and sn.files[file_by_label[str(t)]][0] in bad_states)
 
 
-def rc_model_line(sn, thr, draining, mt, md, gw, ge) -> str:
+def rc_model_line(sn, thr, draining, mt, md, gw, ge, it=0) -> str:
     rows = []
     for i, n in sorted(sn.nodes.items()):
         if n[0] != "step" or i not in sn.steps:
             continue
         s = sn.steps[i]
         rows.append(f"{StepState(s['state']).name}:{Need(s['_implied_need']).name}:{int(n[3])}")
-    return (f"c19 rc {Need(thr).name} {int(draining)} {mt} {md} {gw} {ge} " + (",".join(rows) or "."))
+    return (f"c19 rc {Need(thr).name} {int(draining)} {mt} {md} {gw} {ge} {it} " + (",".join(rows) or "."))
 
 
 # ---------------------------------------------------------------------------------------------
@@ -562,6 +567,7 @@ async def examine_workflow(ctx, wf, sched, draining: bool, exists, where: dict, 
         sn = koracles.Snapshot(wf)
         gw, ge, _ = glob_violations(wf.db, sn, exists)
         mt, md = missing_targets(sn, wf.targets, wf.target_dirs)
+        it = len(invalid_targets_at_end(sn, wf.targets))
     old = sched.draining
     sched.draining = draining
     rep = RecReporter()
@@ -570,13 +576,15 @@ async def examine_workflow(ctx, wf, sched, draining: bool, exists, where: dict, 
     finally:
         sched.draining = old
     msgs = report_messages(rep.events)
-    lines.append(rc_model_line(sn, thr, draining, mt, md, gw, ge))
+    lines.append(rc_model_line(sn, thr, draining, mt, md, gw, ge, it))
+    if it:
+        ctx.stats.count("rc-with-invalid-target" + ("-draining" if draining else ""))
     expect.append((f"{rc.value} {','.join(msgs) or '-'}", "rc", where))
     key = (rc.value, tuple(m.split(":")[0] for m in msgs))
     ctx.stats.case(("rc",) + key + (len(attached_steps(sn)),), nontrivial=True)
     ctx.stats.count("rc=" + (repr(rc).split(".")[-1].split(":")[0] if rc.value else "0"))
     if do_oracle:
-        check_rc_against_tables(ctx, sn, thr, draining, rc.value, gw, ge, mt, md, False, where)
+        check_rc_against_tables(ctx, sn, thr, draining, rc.value, gw, ge, mt, md, False, where, it=it)
     async with wf.db:
         try:
             summary, totals, t = run_real_analysis(wf)
@@ -670,7 +678,7 @@ def check_printed_report(ctx, events, summary, where):
                f"says {title_n}: some pending steps appear under no cause")
 
 
-def check_rc_against_tables(ctx, sn, thr, draining, rc, gw, ge, mt, md, invalid_target, where, needs=None):
+def check_rc_against_tables(ctx, sn, thr, draining, rc, gw, ge, mt, md, invalid_target, where, needs=None, it=0):
     """The property's statement about the exit status, on one leftover database."""
     F, W, P, D = (ReturnCode.FAILED.value, ReturnCode.WARNING.value, ReturnCode.PENDING.value,
                   ReturnCode.DRAINED.value)
@@ -690,8 +698,10 @@ def check_rc_against_tables(ctx, sn, thr, draining, rc, gw, ge, mt, md, invalid_
         return
     if bool(rc & D) != bool(draining):
         report("drained-bit", f"DRAINED bit is {bool(rc & D)} but draining was {draining}")
-    clean_before_globs = not failed and not draining and not req_pending and mt == 0 and md == 0
-    want_failed = bool(failed) or (clean_before_globs and ge > 0)
+    clean_before_globs = not failed and not draining and not req_pending and mt == 0 and md == 0 and it == 0
+    # a requested target that ended the phase as a static file or a volatile output is invalid (not looked at
+    # while draining, like the other target checks)
+    want_failed = bool(failed) or (not draining and it > 0) or (clean_before_globs and ge > 0)
     if bool(rc & F) != want_failed:
         report("failed-bit", f"FAILED bit is {bool(rc & F)}; attached FAILED steps: "
                f"{[sn.nodes[i][1] for i in failed]}, glob errors {ge}, otherwise clean: {clean_before_globs}")
@@ -706,7 +716,7 @@ def check_rc_against_tables(ctx, sn, thr, draining, rc, gw, ge, mt, md, invalid_
         bad = [sn.nodes[i][1] for i in steps if needs.get(i, 0) > thr
                and sn.steps[i]["state"] != StepState.SUCCEEDED.value
                and (settled or sn.steps[i]["state"] in (StepState.PENDING.value, StepState.FAILED.value))]
-        if bad or failed or gw or ge or mt or md or draining:
+        if bad or failed or gw or ge or mt or md or it or draining:
             report("zero-but-not-clean", f"exit status 0 although: unfinished required steps {bad}, failed "
                    f"{[sn.nodes[i][1] for i in failed]}, glob warnings/errors {gw}/{ge}, missing targets {mt}/{md}")
     elif not (rc & ~W) and not (gw or mt or md):
@@ -818,9 +828,24 @@ async def kernel_leftovers(ctx, nseq: int, nops: int, salt: str, do_model: bool,
                         raw_mutation(r, run_.wf)
                     where = {"source": "kernel-sequence+raw-mutation", "sequence_seed": [ctx.seed, salt, i],
                              "mutation_round": m}
+                    # a requested target that is a static file or a volatile output by now (normally rejected earlier;
+                    # reachable when the declaring plan is skipped): the report must call it invalid
+                    saved_targets = run_.wf.targets
+                    if r.random() < 0.5:
+                        async with run_.wf.db:
+                            cands = [l for (l,) in run_.wf.db.execute(
+                                "SELECT label FROM node JOIN file ON file.node = node.i WHERE NOT detached AND file.state IN (?,?,?,?)",
+                                (FileState.CONFIRMED.value, FileState.MISSING.value, FileState.UNCONFIRMED.value,
+                                 FileState.VOLATILE.value))]
+                        if cands:
+                            run_.wf.targets = type(saved_targets)([*saved_targets, *r.sample(cands, min(len(cands), r.randint(1, 2)))])
+                            where["extra_targets"] = sorted(set(map(str, run_.wf.targets)) - set(map(str, saved_targets)))
                     # unreachable states: the reference still defines every relation, so the oracle applies
-                    await examine_workflow(ctx, run_.wf, run_.sched, r.random() < 0.3, os.path.exists, where,
-                                           lines, expect, do_oracle, legal=False)
+                    try:
+                        await examine_workflow(ctx, run_.wf, run_.sched, r.random() < 0.3, os.path.exists, where,
+                                               lines, expect, do_oracle, legal=False)
+                    finally:
+                        run_.wf.targets = saved_targets
                 async with run_.wf.db:
                     desc = settle_with_glob_match(r, run_.wf)
                 if desc is not None:
@@ -992,7 +1017,8 @@ def examine_build(ctx, sim, result, opts, where, lines, expect, do_oracle):
     thr = threshold_of(targets, tdirs)
     msgs = report_messages(result.events)
     draining = "draining" in msgs
-    invalid_target = any(tag == "ERROR" and text.startswith("Invalid build target") for tag, text, _ in result.events)
+    invalid_target = (any(tag == "ERROR" and text.startswith("Invalid build target") for tag, text, _ in result.events)
+                      and not any(tag == "PHASE" for tag, _, _ in result.events))  # rejected before any build phase
     tmp = copy_db(sim)
     if tmp is None:
         return
@@ -1024,7 +1050,8 @@ def examine_build(ctx, sim, result, opts, where, lines, expect, do_oracle):
                 ctx.stats.count("glob-warnings-recounted-after-cleanup")
                 gw = rep_gw
             check_rc_against_tables(ctx, sn, thr, draining, rc, gw, ge if rep_ge or ge else 0, mt, md,
-                                    invalid_target, {**where, "events": [m for m in msgs]}, needs=needs)
+                                    invalid_target, {**where, "events": [m for m in msgs]}, needs=needs,
+                                    it=len(bad_targets))
             stale = [sn.nodes[i][1] for i in attached_steps(sn)
                      if not draining and sn.steps[i]["_implied_need"] != needs[i]
                      and sn.steps[i]["state"] == StepState.PENDING.value
